@@ -177,7 +177,7 @@ class C34(Prop):
                    "a literal is represented by its Python str() or JSON text")
     MAX_WORKERS = 8
     CASES_PER_WORKER = 1   # every case is two real engine processes (run + prov)
-    CASE_TIMEOUT = 180
+    CASE_TIMEOUT = 600
     SHARD_TIMEOUT = 3000
     COQ_SHARD = 6
 
@@ -355,13 +355,16 @@ class C34(Prop):
                     + os.path.join(d, "sf.db") + "\n")
         return values
 
-    def _sf(self, d, args, timeout=150):
+    def _sf(self, d, args, timeout=240):
         env = dict(os.environ)
         env["TMPDIR"] = os.path.join(d, "tmp")
         env["PYTHONPATH"] = os.environ.get("VERIF_REPO", "/repo")
         env.pop("PYTHONHASHSEED", None)
-        return subprocess.run([sys.executable, "-m", "streamflow"] + args, cwd=d, env=env, timeout=timeout,
-                              stdout=subprocess.PIPE, stderr=subprocess.PIPE, text=True)
+        try:
+            return subprocess.run([sys.executable, "-m", "streamflow"] + args, cwd=d, env=env, timeout=timeout,
+                                  stdout=subprocess.PIPE, stderr=subprocess.PIPE, text=True)
+        except subprocess.TimeoutExpired as e:   # machine overloaded (a 3 s job): not an observation of the crate
+            return subprocess.CompletedProcess(e.cmd, 124, "", "harness timeout")
 
     def _outvalue(self, name, v):
         """Run value of a workflow output, digests computed by the harness from the file on disk."""
@@ -454,8 +457,10 @@ class C34(Prop):
         r = self._sf(d, ["prov", "run", "--file", "streamflow.yml", "--outdir", os.path.join(d, "crate"),
                          "--name", "crate.zip"])
         zp = os.path.join(d, "crate", "crate.zip")
+        if r.returncode == 124 and r.stderr == "harness timeout":
+            return {"status": "run-failed", "stderr": "export timed out (overloaded machine)"}
         if r.returncode != 0 or not os.path.exists(zp):
-            return {"status": "export-failed", "deleted": bool(deleted), "stderr": r.stderr[-800:]}
+            return {"status": "export-failed", "deleted": bool(deleted), "stderr": _strip_paths(r.stderr[-900:])}
         entries = []
         with zipfile.ZipFile(zp) as z:
             for zi in z.infolist():
@@ -487,7 +492,20 @@ class C34(Prop):
         return v
 
     def signature(self, c, o, clause):
-        return f"{clause}/delete={c.get('delete') if o.get('deleted') else None}"
+        """oracle clause / what was deleted before export / where: the raising function and exception for a
+        failed export, top-level file vs directory member for a File entity without archive entry."""
+        dl = c.get("delete") if o.get("deleted") else None
+        site = "-"
+        if clause.startswith("export-fails"):
+            fns = re.findall(r", in (\w+)\n", o.get("stderr", ""))
+            exc = re.findall(r"^(\w+(?:\.\w+)*)(?::|$)", o.get("stderr", "").strip().splitlines()[-1] if o.get("stderr", "").strip() else "")
+            site = f"{fns[-1] if fns else '?'}:{exc[0].split('.')[-1] if exc else '?'}"
+        elif clause == "file-missing" and isinstance(o.get("meta"), dict):
+            names = {n for n, _, _ in o["archive"]}
+            miss = [e["@id"] for e in o["meta"].get("@graph", []) if isinstance(e, dict) and "File" in _types(e)
+                    and e.get("@id") not in names]
+            site = "dirmember" if miss and all("/" in m for m in miss) else "top"
+        return f"{clause}/delete={dl}/{site}"
 
     def nontrivial(self, c):
         return True
@@ -540,6 +558,10 @@ def _canon_meta(meta):
         return x
 
     return walk(meta)
+
+
+def _strip_paths(t):
+    return UUID.sub("U", re.sub(r"/var/tmp/sfv-c34-run/[^/\s\"']+", "<case>", t))
 
 
 def coq_json(x):
